@@ -15,7 +15,8 @@ VARIABLE s
 (* each range, separators, space, NUL, DEL, 0x80, a UTF-8 lead byte, 0xFF  *)
 (* 43 '+': a sign that number parsers accept                                *)
 Boundary == {97, 122, 65, 90, 48, 57, 64, 91, 96, 123, 47, 58, 45, 95, 46, 42, 32, 0, 127,
-             128, 195, 255, 109, 77, 53, 43}
+             128, 195, 255, 109, 77, 53, 43,
+             44, 94}      \* ',' and '^': the neighbours of the two separators (a tokenizer that finds them with bit tricks)
 Reduced  == {97, 90, 48, 57, 46, 128, 45, 0, 122}
 Bytes == IF Alpha = "all" THEN 0..255 ELSE IF Alpha = "boundary" THEN Boundary ELSE Reduced
 
@@ -69,6 +70,11 @@ Disjoint == /\ ~(IsScript(s) /\ IsVariant(s))
 (* raw form: packing is injective on canonical text and unpacks to it       *)
 RawRoundTrip == \A k \in Kinds : IsKind(k, s) =>
                    LET c == CanonKind(k, s) IN UnLE(LE(c, WidthOf(k))) = c
+
+(* a subtag never survives an extra space, NUL or separator at either end: the harness asks for these neighbours      *)
+(* straight after an accepted subtag (an implementation that remembers the last accepted text must not be fooled)   *)
+NeighbourRejected == \A k \in Kinds : IsKind(k, s) =>
+    \A x \in {32, 0, 45, 95} : ~IsKind(k, Append(s, x)) /\ ~IsKind(k, <<x>> \o s) /\ ~IsKind(k, s \o <<x, x, x>>)
 
 CaseRec ==
     [k |-> "sub", s |-> s,
